@@ -336,6 +336,8 @@ def run(pid, tier):
     cov["selftest"] = self_test_binding(tpath, wd)
     if pid == "C03":
         conc_stage(bindir, tier, wd, cov, v)
+    if pid in ("C04", "C03"):
+        forced_spill_stage(pid, bindir, tier, wd, cov, v)
     if pid == "C05":
         # "a single pool worker runs queued tasks in priority order while no more tasks are queued
         # than the local capacity": pool driver, clause task_order of Trace_CoPool.tla
@@ -352,6 +354,43 @@ def run(pid, tier):
         "crossbeam Injector / SkipMap and st3 Worker/Stealer behave as documented when used by one thread",
         "hook events spill_b/spill/steal are emitted where DESIGN.md says (checked by the binding self-test)",
         "TLC explores the design model only inside the stated constants"])
+
+
+# ---------------------------------------------------------------------------
+# the owner's spill loop against sibling steals, forced through the `spill` hook event (C04; the items are
+# also accounted for, C03)
+# ---------------------------------------------------------------------------
+def forced_spill_stage(pid, bindir, tier, wd, cov, v):
+    for cfgname, expect in (("MC_SpillRace.cfg", None), ("MC_SpillRace_break_only_if_nothing_moved.cfg", "any")):
+        r = tlc("SpillRace", cfgname, workers=4, timeout=600)
+        require_mc_ok(r, cfgname, expect_violation=expect)
+        if expect is None:
+            cov["states"] = cov.get("states", 0) + r.distinct
+            cov["transitions"] = cov.get("transitions", 0) + r.generated
+        cov.setdefault("mc_runs", []).append({"cfg": cfgname, "distinct": r.distinct, "generated": r.generated,
+                                              "expected_violation": r.violated if expect else None})
+    scs = []
+    for cap in ((4, 6, 8, 16, 32) if tier == "thorough" else (4, 8, 16)):
+        for after in range(1, cap // 2):
+            scs.append({"force": "spill_steal", "cap": cap, "after": after, "src": "forced-spill-steal"})
+    for i, s in enumerate(scs):
+        s["id"] = i + 1
+    tpath = drive(bindir, "wsq_conc", scs, wd, "creset", "cend", timeout=600, tag="_forced")
+    info = validate_trace("Trace_WSQConc", "Trace_WSQConc.cfg", tpath, timeout=600)
+    if info["consumed"] != info["total"]:
+        raise ToolError("forced spill trace not fully consumed (%s of %s)" % (info["consumed"], info["total"]))
+    mine = CLAUSES[pid]
+    for x in info["viols"]:
+        if x[1] in mine:
+            v.add({"clause": x[1], "scenario_id": x[2], "detail": x[3] if len(x) > 3 else None, "driver": "wsq_conc",
+                   "scenario": scs[x[2] - 1] if 0 < x[2] <= len(scs) else None})
+    recs = read_ndjson(tpath)
+    spilled = sum(1 for r in recs if r.get("ev") == "cend" and r.get("spills", 0) > 0)
+    if spilled == 0 and not any(x[1] in ("hang", "abort", "panic") for x in info["viols"]):
+        raise ToolError("forced spill stage: no scenario reached the spill loop - the stage is vacuous")
+    cov["forced_spill_scenarios"] = len(scs)
+    cov["forced_spill_reached"] = spilled
+    cov["traces_validated_against_impl"] = cov.get("traces_validated_against_impl", 0) + len(scs)
 
 
 # ---------------------------------------------------------------------------
